@@ -72,6 +72,7 @@ def run(ctx, rep):
     from rules import c12 as _c12
     common.share(_c12, ctx, rep, {"C12-FRAME", "C12-EXTEND"}, key_prefixes=["with_result"],
                  floors={"C12-FRAME": 0, "C12-EXTEND": 0})
+    common.share(_c12, ctx, rep, {"C12-CTOR-CENSUS"})   # ... nor does any other way of deriving a context drop a binding
     # ------------------------------------------------------------ ONE-READER
     r = rep.rule("C13-ONE-READER", "every option parser reads its expression with selection::read_getter, and the "
                  "sub-parsers are reachable only through read_getter", floor=12, analysis="A1 who-may-call")
